@@ -1,106 +1,122 @@
 //! C10 / C14(i) — WAL entry codec: decode is total, round-trips, and rejects damaged images.
+//! Images live in stack arrays of concrete size (const generic N = payload length): a length field that has
+//! been through a Vec is no longer a constant for CBMC and every loop behind it unrolls to the bound.
 use crate::vs;
 use redis_sim::streaming::WalEntry;
 
-fn any_payload(n: usize) -> Vec<u8> {
-    let mut v = Vec::with_capacity(n);
-    let mut i = 0;
-    while i < n { v.push(vs::u8()); i += 1; }
-    v
+/// symbolic bytes from `from` on, by individual assignments (no loop: the harness's own loops must not force a
+/// large unwinding bound onto the loops of the code under test)
+fn fill<const M: usize>(a: &mut [u8; M], from: usize) {
+    macro_rules! one { ($($i:literal)*) => { $( if from + $i < M { a[from + $i] = vs::u8(); } )* } }
+    one!(0 1 2 3 4 5 6 7 8 9 10 11 12 13 14 15 16 17 18 19 20 21 22 23);
+}
+fn copy_into<const M: usize>(a: &mut [u8; M], v: &[u8]) {
+    macro_rules! one { ($($i:literal)*) => { $( if $i < M && $i < v.len() { a[$i] = v[$i]; } )* } }
+    one!(0 1 2 3 4 5 6 7 8 9 10 11 12 13 14 15 16 17 18 19 20 21 22 23);
 }
 
-/// arbitrary 16+n bytes whose length field says n: decode never panics; Some => used == 16+n, len == n, CRC matches
-pub fn decode_total(n: usize) {
-    let mut img = Vec::with_capacity(16 + n);
-    img.extend_from_slice(&(n as u32).to_le_bytes());
-    let mut i = 0;
-    while i < 12 + n { img.push(vs::u8()); i += 1; }
+/// arbitrary 16+N bytes whose length field says N: decode never panics; Some => used == 16+N, len == N, CRC matches
+pub fn decode_total<const N: usize, const M: usize>() {
+    let mut img = [0u8; M]; // M = 16 + N
+    img[0] = N as u8;
+    fill(&mut img, 4);
     let r = WalEntry::decode(&img);
     if let Some((e, used)) = &r {
-        vcheck!(*used == 16 + n, "decode:consumed == 16+len");
-        vcheck!(e.data.len() == n, "decode:payload length");
+        vcheck!(*used == 16 + N, "decode:consumed == 16+len");
+        vcheck!(e.data.len() == N, "decode:payload length");
         vcheck!(e.validate(), "decode:returned entry validates");
         let mut k = 0;
-        let mut same = true;
-        while k < n { if e.data[k] != img[16 + k] { same = false; } k += 1; }
+        let mut same = e.data.len() == N;
+        while same && k < N { if e.data[k] != img[16 + k] { same = false; } k += 1; }
         vcheck!(same, "decode:payload bytes are the image bytes");
+        let ts = u64::from_le_bytes([img[4], img[5], img[6], img[7], img[8], img[9], img[10], img[11]]);
+        vcheck!(e.timestamp == ts, "decode:stamp is the image's stamp field");
     }
     vcover!(r.is_some(), "decode accepts some image");
     vcover!(r.is_none(), "decode rejects some image");
-    std::mem::forget((r, img));
+    std::mem::forget(r);
 }
 
-/// encode(e) then decode: identical entry, for every stamp and payload of n bytes
-pub fn roundtrip(n: usize) {
-    let data = any_payload(n);
+fn entry<const N: usize>(ts: u64) -> (WalEntry, [u8; N]) {
+    let mut p = [0u8; N];
+    fill(&mut p, 0);
+    let data = p.to_vec();
+    (WalEntry { checksum: crc32fast::hash(&p), data, timestamp: ts }, p)
+}
+fn image<const M: usize>(e: &WalEntry) -> [u8; M] {
+    let v = e.encode();
+    let mut a = [0u8; M];
+    copy_into(&mut a, &v);
+    std::mem::forget(v);
+    a
+}
+
+/// encode(e) then decode: identical entry, for every stamp and payload of N bytes
+pub fn roundtrip<const N: usize, const M: usize>() {
     let ts = vs::u64();
-    let e = WalEntry { checksum: crc32fast::hash(&data), data, timestamp: ts };
-    let img = e.encode();
-    vcheck!(img.len() == 16 + n, "encode:length");
+    let (e, p) = entry::<N>(ts);
+    let v = e.encode();
+    vcheck!(v.len() == 16 + N, "encode:length");
+    let img: [u8; M] = image(&e);
+    vcheck!(img[0] as usize == N && img[1] == 0 && img[2] == 0 && img[3] == 0, "encode:length field");
     let r = WalEntry::decode(&img);
     match &r {
         Some((d, used)) => {
-            vcheck!(*used == img.len(), "roundtrip:consumed");
+            vcheck!(*used == M, "roundtrip:consumed");
             vcheck!(d.timestamp == ts, "roundtrip:stamp");
             vcheck!(d.checksum == e.checksum, "roundtrip:checksum");
-            let mut same = d.data.len() == n;
+            let mut same = d.data.len() == N;
             let mut k = 0;
-            while same && k < n { if d.data[k] != e.data[k] { same = false; } k += 1; }
+            while same && k < N { if d.data[k] != p[k] { same = false; } k += 1; }
             vcheck!(same, "roundtrip:payload");
         }
         None => { vcheck!(false, "roundtrip:decodes"); }
     }
-    std::mem::forget((r, img, e));
+    std::mem::forget((r, v, e));
 }
 
-/// every proper prefix of encode(e) is rejected (torn entry header or torn payload)
-pub fn truncation(n: usize) {
-    let data = any_payload(n);
+/// every proper prefix of encode(e) is rejected (torn entry header or torn payload): CUT = prefix length
+pub fn truncation<const N: usize, const M: usize, const CUT: usize>() {
     let ts = vs::u64();
-    let e = WalEntry { checksum: crc32fast::hash(&data), data, timestamp: ts };
-    let img = e.encode();
-    let cut = vs::usize();
-    vs::assume(cut < img.len());
-    let r = WalEntry::decode(&img[..cut]);
+    let (e, _p) = entry::<N>(ts);
+    let img: [u8; M] = image(&e);
+    let mut pre = [0u8; CUT];
+    copy_into(&mut pre, &img);
+    let r = WalEntry::decode(&pre);
     vcheck!(r.is_none(), "truncation:prefix rejected");
-    std::mem::forget((r, img, e));
+    std::mem::forget((r, e));
 }
 
-/// single-bit flip in field `region` (0 = length[0..4], 1 = stamp[4..12], 2 = crc[12..16], 3 = payload) of encode(e):
-/// decode is None or returns e unchanged
-pub fn bitflip(n: usize, region: u8) {
-    let data = any_payload(n);
+/// single-bit flip in field `region` (0 = length byte 0 (bits 0..2), 1 = stamp[4..12], 2 = crc[12..16], 3 = payload)
+/// of encode(e): decode is None or returns e unchanged
+pub fn bitflip<const N: usize, const M: usize>(region: u8) {
     let ts = vs::u64();
-    let e = WalEntry { checksum: crc32fast::hash(&data), data, timestamp: ts };
-    let mut img = e.encode();
-    let (lo, hi) = match region { 0 => (0usize, 4usize), 1 => (4, 12), 2 => (12, 16), _ => (16, 16 + n) };
+    let (e, p) = entry::<N>(ts);
+    let mut img: [u8; M] = image(&e);
+    let (lo, hi) = match region { 0 => (0usize, 1usize), 1 => (4, 12), 2 => (12, 16), _ => (16, 16 + N) };
     let pos = vs::usize();
     vs::assume(pos >= lo && pos < hi);
     let bit = vs::u8();
     vs::assume(bit < 8);
-    if region == 0 {
-        // only flips that keep the declared length within the image are interesting; larger lengths are
-        // "truncated" by construction and covered by decode_total/truncation
-        vs::assume(pos == 0 && bit < 3);
-    }
+    if region == 0 { vs::assume(bit < 2); } // declared length stays <= 3: larger lengths are "truncated" by construction
     img[pos] ^= 1u8 << bit;
     let r = WalEntry::decode(&img);
     if let Some((d, _)) = &r {
         match region {
             1 => { vcheck!(d.timestamp == ts, "bitflip:stamp altered but accepted"); }
-            0 => { vcheck!(d.data.len() == n, "bitflip:length altered but accepted"); }
+            0 => { vcheck!(d.data.len() == N, "bitflip:length altered but accepted"); }
             2 => { vcheck!(false, "bitflip:crc altered but accepted"); }
             _ => { vcheck!(false, "bitflip:payload altered but accepted"); }
         }
     }
-    std::mem::forget((r, img, e));
+    let _ = p;
+    std::mem::forget((r, e));
 }
 
 pub fn twin() {
-    let data = any_payload(2);
-    let e = WalEntry { checksum: crc32fast::hash(&data), data, timestamp: vs::u64() };
-    let img = e.encode();
+    let (e, _p) = entry::<2>(vs::u64());
+    let img: [u8; 18] = image(&e);
     let r = WalEntry::decode(&img);
     vcheck!(r.is_none(), "twin:reachable");
-    std::mem::forget((r, img, e));
+    std::mem::forget((r, e));
 }
